@@ -16,7 +16,15 @@ import (
 
 func symPutPayload() *svc.PutPayload {
 	p := &svc.PutPayload{ID: nondetStringUpTo("id", 2), Tenant: nondetString("tenant", 1)}
-	switch nondetChoice("focus", 5) {
+	switch nondetChoice("focus", 6) {
+	case 5:
+		// array of unsigned 64-bit integers carried in metadata
+		switch nondetChoice("ids-len", 3) {
+		case 1:
+			p.Ids = []uint64{nondetUint64("id0")}
+		case 2:
+			p.Ids = []uint64{nondetUint64("id0"), nondetUint64("id1")}
+		}
 	case 4:
 		// optional string carried in metadata, with an enum validation
 		v := nondetStringUpTo("mode", 2)
@@ -87,7 +95,7 @@ func VerifC10_p1_put() {
 	eps := &svc.Endpoints{Put: func(ctx context.Context, v any) (any, error) {
 		calls++
 		got = v.(*svc.PutPayload)
-		return &svc.PutResult{Rid: "r"}, nil
+		return &svc.PutResult{Rid: "r", Item: &svc.Item{N: 1}}, nil
 	}}
 	srv := server.New(eps, nil)
 	resp, herr := srv.Put(ctx, msg.(*svcpb.PutRequest))
@@ -109,6 +117,12 @@ func VerifC10_p1_put() {
 	verifAssert("field:u", (got.U == nil) == (want.U == nil) && (got.U == nil || *got.U == *want.U))
 	verifAssert("field:ok", (got.OK == nil) == (want.OK == nil) && (got.OK == nil || *got.OK == *want.OK))
 	verifAssert("field:f", (got.F == nil) == (want.F == nil) && (got.F == nil || *got.F == *want.F))
+	verifAssert("metadata:ids", len(got.Ids) == len(want.Ids))
+	for i := range want.Ids {
+		if i < len(got.Ids) {
+			verifAssert("metadata:ids-elem", got.Ids[i] == want.Ids[i])
+		}
+	}
 	verifAssert("field:tags", len(got.Tags) == len(want.Tags))
 	for i := range want.Tags {
 		if i < len(got.Tags) {
@@ -134,18 +148,24 @@ func VerifC10_p1_put() {
 // VerifC10_p1_result: result -> generated server message -> generated client result.
 func VerifC10_p1_result() {
 	res := &svc.PutResult{Rid: nondetStringUpTo("rid", 2)}
-	if nondetBool("item-set") {
-		res.Item = &svc.Item{N: int(nondetInt32("item-n"))}
-		if nondetBool("item-s-set") {
-			v := nondetStringUpTo("item-s", 1)
-			res.Item.S = &v
-		}
+	res.Item = &svc.Item{N: int(nondetInt32("item-n"))}
+	if nondetBool("item-s-set") {
+		v := nondetStringUpTo("item-s", 1)
+		res.Item.S = &v
 	}
 	want := *res
 	hdr, trlr := metadata.MD{}, metadata.MD{}
 	msg, err := server.EncodePutResponse(context.Background(), res, &hdr, &trlr)
 	verifAssert("server-encodes-result", err == nil && msg != nil)
 	if err != nil {
+		return
+	}
+	if nondetBool("foreign-server-omits-required-item") {
+		// a message that lacks a required member is refused by the generated client
+		m := msg.(*svcpb.PutResponse)
+		m.Item = nil
+		bad, berr := client.DecodePutResponse(context.Background(), m, hdr, trlr)
+		verifAssert("client-refuses-message-missing-a-required-member", berr != nil && bad == nil)
 		return
 	}
 	out, derr := client.DecodePutResponse(context.Background(), msg, hdr, trlr)
@@ -186,7 +206,7 @@ func VerifC10_p1_invoker() {
 	var got *svc.PutPayload
 	eps := &svc.Endpoints{Put: func(ctx context.Context, v any) (any, error) {
 		got = v.(*svc.PutPayload)
-		return &svc.PutResult{Rid: "r" + got.Tenant}, nil
+		return &svc.PutResult{Rid: "r" + got.Tenant, Item: &svc.Item{N: 1}}, nil
 	}}
 	lc := &loopClient{srv: server.New(eps, nil)}
 	ctx := context.Background()
